@@ -775,6 +775,16 @@ inline bool ThreadPool::tryExecuteNextFromRings(size_t& startRing) {
     }
   }
   startRing = 0;
+  // Placed scheduling (ConcurrentTaskSet's default kHeavy path, futures) puts a task into the steal ring of
+  // a sleeper it claims. If that worker, once woken, first picks up a task that waits for the placed one,
+  // only a helping waiter can still run it: without this scan both spin forever.
+  size_t ns = numStealRings_.load(std::memory_order_acquire);
+  for (size_t i = 0; i < ns; ++i) {
+    if (stealRings_[i].try_pop(task)) {
+      executeNext(std::move(task));
+      return true;
+    }
+  }
   return false;
 }
 
